@@ -293,6 +293,10 @@ type gate struct {
 	sched       uint64 // mixed-radix schedule number: digit i selects among the parked bodies
 	rng         *mon.Rand
 	released    []string
+	nodeOf      map[string]string // parked/released key -> node key
+	// eager (optional): called at every decision point once the whole process is quiescent, with the
+	// node keys of the bodies parked at the gate and of the bodies released so far
+	eager func(parked, released []string)
 }
 
 func newGate(sched uint64, rng *mon.Rand) *gate {
@@ -323,7 +327,12 @@ func (g *gate) park(node string) {
 		return
 	}
 	ch := make(chan struct{})
-	g.parked[node+fmt.Sprint(len(g.parked), len(g.released))] = ch
+	key := node + fmt.Sprint(len(g.parked), len(g.released))
+	g.parked[key] = ch
+	if g.nodeOf == nil {
+		g.nodeOf = map[string]string{}
+	}
+	g.nodeOf[key] = node
 	g.mu.Unlock()
 	g.cond.Broadcast()
 	<-ch
@@ -355,6 +364,12 @@ func (g *gate) controller() {
 		for i := 0; i < 6; i++ {
 			runtime.Gosched()
 		}
+		settled := false
+		if g.eager != nil {
+			// the eagerness invariant is judged on a quiescent process only: whatever the run loop
+			// was going to start after the last completion has been started by now
+			_, settled = mon.SettleIgnoring(3, 400, "mon.WaitDone")
+		}
 		g.mu.Lock()
 		if g.closed {
 			g.mu.Unlock()
@@ -366,6 +381,16 @@ func (g *gate) controller() {
 				keys = append(keys, k)
 			}
 			sort.Strings(keys)
+			if settled {
+				var pk, rl []string
+				for _, k := range keys {
+					pk = append(pk, g.nodeOf[k])
+				}
+				for _, k := range g.released {
+					rl = append(rl, g.nodeOf[k])
+				}
+				g.eager(pk, rl)
+			}
 			var idx int
 			if g.rng != nil {
 				idx = g.rng.Intn(len(keys))
@@ -396,6 +421,78 @@ func genOpts(r *mon.Rand, cfg mon.Config, mode gspec.Mode) gspec.GenOpts {
 		o.Cycles = 0.25
 	}
 	return o
+}
+
+// flat: no nested graphs
+func flat(g *gspec.GraphSpec) bool {
+	for i := range g.Nodes {
+		if g.Nodes[i].Sub != nil {
+			return false
+		}
+	}
+	return true
+}
+
+// notStarted: eager execution starts a node as soon as every control predecessor has finished or is
+// known to be skipped. Given the bodies that have returned (released) and those in flight (parked) at
+// a quiescent point, it returns the nodes of the reference run that should have begun but have not.
+func notStarted(spec *gspec.GraphSpec, ref *gspec.RefResult, parked, released []string) []string {
+	done := map[string]bool{gspec.START: true}
+	for _, n := range released {
+		done[n] = true
+	}
+	begun := map[string]bool{}
+	for _, n := range parked {
+		begun[n] = true
+	}
+	ctrl := map[string][]string{}
+	for _, e := range spec.Edges {
+		if !e.NoControl {
+			ctrl[e.To] = append(ctrl[e.To], e.From)
+		}
+	}
+	for _, b := range spec.Branches {
+		for _, t := range b.Targets {
+			ctrl[t] = append(ctrl[t], b.From)
+		}
+	}
+	body := map[string]bool{}
+	bodyNodes(spec, body)
+	var known func(n string, depth int) bool
+	known = func(n string, depth int) bool {
+		if done[n] {
+			return true
+		}
+		if depth > 64 || (ref.Ran[n] && body[n]) {
+			return false
+		}
+		// skipped in the reference, or a pass-through node (no body): settled once its own control
+		// predecessors are (the process is quiescent, so the run loop has handled it)
+		for _, p := range ctrl[n] {
+			if !known(p, depth+1) {
+				return false
+			}
+		}
+		return true
+	}
+	var miss []string
+	for i := range spec.Nodes {
+		k := spec.Nodes[i].Key
+		if !ref.Ran[k] || !body[k] || done[k] || begun[k] {
+			continue
+		}
+		ok := true
+		for _, p := range ctrl[k] {
+			if !known(p, 0) {
+				ok = false
+			}
+		}
+		if ok {
+			miss = append(miss, k)
+		}
+	}
+	sort.Strings(miss)
+	return miss
 }
 
 func hasEagerSub(g *gspec.GraphSpec) bool {
@@ -486,6 +583,18 @@ func specCase(ctx context.Context, rep *mon.Reporter, rng *mon.Rand, cfg mon.Con
 		ctl := gspec.NewCtl("r")
 		ctl.Faults = faults
 		var maxParked int32
+		var eagerViol []string
+		var eagerMu sync.Mutex
+		if g != nil && s < nsched/2 && spec.Mode == gspec.Workflow && flat(spec) && faults == nil && ref.Err == "" {
+			g.eager = func(parked, released []string) {
+				if miss := notStarted(spec, ref, parked, released); len(miss) > 0 {
+					eagerMu.Lock()
+					eagerViol = append(eagerViol, fmt.Sprintf("bodies finished so far %v, bodies still in flight (parked at the gate) %v, process quiescent: %v should have been started (every control predecessor has finished or been skipped) but no body of it has begun", released, parked, miss))
+					eagerMu.Unlock()
+				}
+				rep.Count("eager_decision_points_checked", 1)
+			}
+		}
 		if g != nil {
 			go g.controller()
 			ctl.OnBodyEnd = func(_ context.Context, node string) {
@@ -539,6 +648,13 @@ func specCase(ctx context.Context, rep *mon.Reporter, rng *mon.Rand, cfg mon.Con
 			rep.Violation(ID+"/"+v.Class, v.Detail+"\n"+extra, wit)
 		}
 		if len(viol) > 0 {
+			return
+		}
+		eagerMu.Lock()
+		ev := append([]string(nil), eagerViol...)
+		eagerMu.Unlock()
+		if len(ev) > 0 {
+			rep.Violation(ID+"/eager/successor-not-started-while-others-in-flight", ev[0]+"\n"+extra, wit)
 			return
 		}
 		if mm := gspec.CompareResult(refS, out); mm != nil {
